@@ -103,6 +103,7 @@ void Level::computeResidual(Vector<double>& result, const Vector<double>& rhs, c
     if (!op_residual_)
         throw std::runtime_error("Residual not initialized.");
     op_residual_->computeResidual(result, rhs, x);
+    VERIF_OP3("Res", level_depth_, result, rhs, x);
 }
 
 // ------------------- //
@@ -140,6 +141,7 @@ void Level::directSolveInPlace(Vector<double>& x) const
     if (!op_directSolver_)
         throw std::runtime_error("Coarse Solver not initialized.");
     op_directSolver_->solveInPlace(x);
+    VERIF_OP1("D", level_depth_, x);
 }
 
 // --------------- //
@@ -165,6 +167,7 @@ void Level::smoothing(Vector<double>& x, const Vector<double>& rhs, Vector<doubl
     if (!op_smoother_)
         throw std::runtime_error("Smoother not initialized.");
     op_smoother_->smoothing(x, rhs, temp);
+    VERIF_OP3("S", level_depth_, x, rhs, temp);
 }
 
 // ---------------------------- //
@@ -190,4 +193,5 @@ void Level::extrapolatedSmoothing(Vector<double>& x, const Vector<double>& rhs, 
     if (!op_extrapolated_smoother_)
         throw std::runtime_error("Extrapolated Smoother not initialized.");
     op_extrapolated_smoother_->extrapolatedSmoothing(x, rhs, temp);
+    VERIF_OP3("SX", level_depth_, x, rhs, temp);
 }
